@@ -160,6 +160,15 @@ theorem Redis_expire_exact (s : RState) (h : RInv s) (T : Int) (ih : Bytes) (f :
         · intro e; cases e
         · intro ⟨e, ht⟩; cases e; exact absurd ht h
 
+/-- C05 (Redis), the store's own expiry loop (D25): same rule on the same clock as the memory store -/
+theorem Redis_loop_exact (s : RState) (h : RInv s) (c life : Int) (ih : Bytes) (f : Fam) (pk : Bytes) (t : Int) :
+    (AMap.get (view (loopTick s c life) ih f).seeders pk = some t ↔ AMap.get (view s ih f).seeders pk = some t ∧ c - t < life) ∧
+    (AMap.get (view (loopTick s c life) ih f).leechers pk = some t ↔ AMap.get (view s ih f).leechers pk = some t ∧ c - t < life) := by
+  have h' := Redis_expire_exact s h (MemStore.loopCutoff c life) ih f pk t
+  have e : t > MemStore.loopCutoff c life ↔ c - t < life := by unfold MemStore.loopCutoff; omega
+  unfold loopTick
+  rw [h'.1, h'.2, e]; exact ⟨Iff.rfl, Iff.rfl⟩
+
 /-- **D4 (repaired in /repo, `fix:` commit c71408d), as a theorem about the collector as it was**:
 `Redis_expire_exact` is about a collector pass that runs without anything in between. The pass was
 several round trips per swarm key, the read and the removal being different ones; when an announce
